@@ -48,9 +48,24 @@ import (
 // first failure yields four times before it proceeds (schedule shaping, never
 // deciding).
 
-type c28err struct{ seq int }
+// c28err is the error a failing callback returns. It may wrap a well-known
+// error (context.Canceled, context.DeadlineExceeded, io.EOF): a callback is free
+// to fail with those, and the enumeration must still report the failure.
+type c28err struct {
+	seq   int
+	wraps error
+}
 
-func (e *c28err) Error() string { return fmt.Sprintf("c28 injected failure at call %d", e.seq) }
+func (e *c28err) Error() string {
+	if e.wraps != nil {
+		return fmt.Sprintf("c28 injected failure at call %d: %v", e.seq, e.wraps)
+	}
+	return fmt.Sprintf("c28 injected failure at call %d", e.seq)
+}
+
+func (e *c28err) Unwrap() error { return e.wraps }
+
+var c28wrapped = []error{nil, nil, context.Canceled, context.DeadlineExceeded, io.EOF}
 
 const (
 	c28none = iota
@@ -75,6 +90,7 @@ type c28rec struct {
 	firstErr   *c28err
 	errs       map[*c28err]bool
 	perUnit    bool // every call is its own unit
+	wraps      error
 }
 
 // call is the body of every harness callback. unit identifies the dispatch
@@ -118,7 +134,7 @@ func (r *c28rec) call(unit int) error {
 		}
 	}
 	if fail {
-		e := &c28err{seq: s}
+		e := &c28err{seq: s, wraps: r.wraps}
 		r.mu.Lock()
 		r.failed++
 		r.errs[e] = true
@@ -339,7 +355,7 @@ func init() {
 	}
 	required = append(required, "fail_first", "fail_middle", "fail_last", "control_clean",
 		"g1", "g2", "g3", "g4", "g8", "mode_single", "mode_all_after",
-		"returned_injected_error", "failure_with_units_remaining", "multi_goroutine_failure_with_units_remaining")
+		"returned_injected_error", "injected_error_wraps_wellknown", "failure_with_units_remaining", "multi_goroutine_failure_with_units_remaining")
 	core.Register(&core.Monitor{
 		ID:        "C28",
 		Title:     "A callback error stops streaming and is reported",
@@ -447,7 +463,10 @@ func (p *c28pass) run(single bool) bool {
 	if !single {
 		procs = fmt.Sprintf("GOMAXPROCS=%d", c28procs)
 	}
-	rec := &c28rec{k: k, allAfter: p.allAfter, delays: p.delays, units: map[int]bool{}, errs: map[*c28err]bool{}, perUnit: p.subj.perUnit}
+	rec := &c28rec{k: k, allAfter: p.allAfter, delays: p.delays, units: map[int]bool{}, errs: map[*c28err]bool{}, perUnit: p.subj.perUnit, wraps: c28wrapped[c.Index%len(c28wrapped)]}
+	if rec.wraps != nil {
+		c.Count("injected_error_wraps_wellknown")
+	}
 	var err error
 	rep2 := core.Watch(func() { err = p.subj.run(g, rec, p.yields) }, 6*time.Second, 90*time.Second)
 	desc := fmt.Sprintf("%s (%s) goroutines=%d n=%d failing call k=%d (%s, %s)", a.name, a.label, g, n, k, p.mode, procs)
